@@ -19,5 +19,6 @@ SameMul   == Mul(a, b) = R!Mul(a, b) /\ Sq(a) = R!Sq(a)
 SameCmp   == Cmp(a, b) = R!Cmp(a, b)
 SameTrunc == \A k \in 1..3 : Trunc(Mul(a, b), k) = R!Trunc(R!Mul(a, b), k)
 SameChain == Sub(Mul(Add(a, b), Sub(a, b)), Sq(a)) = R!Sub(R!Mul(R!Add(a, b), R!Sub(a, b)), R!Sq(a))
+SameRat   == b[1] = 0 \/ LET q == RatNorm(a, Abs(b)) IN Mul(q[1], Abs(b)) = Mul(a, q[2]) /\ IsPos(q[2])
 Overridden == Add(<<1, 0, <<1>>>>, <<1, 0, <<1>>>>) = <<1, 0, <<2>>>>
 =============================================================================
